@@ -51,6 +51,10 @@ def BLOCK(g):
     return dict(k='block_on', g=g)
 
 
+def SPUR(g):
+    return dict(k='spur', g=g)
+
+
 def DROP(o):
     return dict(k='drop_obj', o=o)
 
@@ -174,6 +178,18 @@ def future_mix(pools=(0, 1, 2)):
         # polled once (the poll drains the queue and parks it in WaitingForPoll), then dropped / never polled again
         out.append(make('FD_PO_DR_D_Fire_p%d' % p, 1, p, 1, [FD(1, aw=[1], label='f'), PO('f'), DR('f'), D(1)], [FIRE(1)]))
         out.append(make('FD_D_PO_Fire_p%d' % p, 1, p, 1, [FD(1, aw=[1], label='f'), D(1), PO('f')], [FIRE(1)]))
+    return out
+
+
+def spurious_families(pools=(0, 1)):
+    """the adversary the Future contract allows: every waker the event source was ever given is invoked again (stale wakers)"""
+    out = []
+    for p in pools:
+        out.append(make('spur_FDdet_S_p%d' % p, 1, p, 1, [FD(1, aw=[1], then='detach'), S(1)], [SPUR(1), SPUR(1), FIRE(1)]))
+        out.append(make('spur_FDaw_p%d' % p, 1, p, 1, [FD(1, aw=[1], then='await')], [SPUR(1), FIRE(1), SPUR(1)]))
+    for p in (1, 2):
+        out.append(make('spur_FDdet_D_S_p%d' % p, 1, p, 1, [FD(1, aw=[1], then='detach'), D(1)], [SPUR(1), FIRE(1)], [S(1)]))
+        out.append(make('spur_FD2aw_p%d' % p, 1, p, 2, [FD(1, aw=[1, 2], then='await')], [FIRE(1), SPUR(1), FIRE(2)]))
     return out
 
 
@@ -328,7 +344,7 @@ def for_property(prop, tier, seed=0):
         if not quick:
             fam += three_thread((0, 1, 2))
     elif prop == 'C06':
-        fam = future_mix((0, 1) if quick else (0, 1, 2))
+        fam = future_mix((0, 1) if quick else (0, 1, 2)) + spurious_families((0, 1) if quick else (0, 1, 2))
         if not quick:
             fam += three_thread((0, 1, 2))
     elif prop == 'C07':
